@@ -153,3 +153,19 @@ prop('C09', 'results are a pure function of the input, independent of thread sch
   sc('any_two_split_trees_agree', 'collect_any_two', 'T09.1 two split trees give the same vector'),
   sc('flatten_after_collect', 'flattenCollect_eq', 'T09.1 filter_map + flatten after an indexed collect is the sequential filter_map + flatten: faces come out in cell order'),
 ])
+SU = ('MVoro.Proofs.Surface', 'MVoro.Surface')
+def su(name, orig, doc): return (name, SU[0], SU[1], orig, doc)
+prop('C14', 'custom integrals receive an exact signed decomposition of the cell', ['MVoro.Proofs.Surface', 'MVoro.Proofs.TessBook'], [
+  su('volume_indep_of_apex', 'volume_apex_indep', "T14.1 for a closed oriented triangulated surface the signed sum of apex-tetrahedron volumes does not depend on the apex (degree 0)"),
+  su('first_moment_indep_of_apex', 'm1_apex_indep', 'T14.1 nor does the signed sum of first moments (degree 1)'),
+  su('second_moment_indep_of_apex', 'm2_apex_indep', 'T14.1 nor the signed sum of second moments, for every pair of directions (degree 2)'),
+  su('closure', 'closure', 'T04.2/T14 the vector areas of a closed oriented surface sum to zero'),
+  su('divergence_identity', 'divergence', 'T04.2 one third of sum (vector area . (triangle centroid - g)) is the signed tetrahedron sum'),
+  su('tetrahedron_is_closed_surface', 'tetFaces_closed', 'non-vacuity: the four faces of any tetrahedron satisfy the hypothesis ClosedSurf'),
+  su('edge_split_area', 'split_edge_area', 'T14.2 splitting an edge (a,b) at any point of its line (the foot point used by the decomposition without faces) does not change the signed vector area seen from P'),
+  su('edge_split_area_normal', 'split_edge_areaN', 'T14.2 same, projected on the face normal'),
+  su('edge_split_first_moment', 'split_edge_moment1', 'T14.2 nor the first moment'),
+  su('fan_origin_indep', 'fan_origin_indep', 'T14.2 the fan triangulation of a closed polygon has the same vector area from every origin: decomposition with faces = without faces as signed measures on each face'),
+  tb('data_alignment', 'zipData_mem', 'T14.4 zipping the unfiltered cell list with the data delivers data[i] to the cell with index i, for every mask'),
+  tb('data_alignment_order', 'zipData_spec', 'T14.4 and in increasing index order'),
+])
